@@ -17,6 +17,7 @@
 package c02
 
 import (
+	"bufio"
 	"bytes"
 	"context"
 	"crypto/sha256"
@@ -323,6 +324,8 @@ type mutant struct {
 	forceBusy, noBusy bool
 	// forceHdrChunk: deliver the header as its own chunk(s), then zero-length reads (see partsReader)
 	forceHdrChunk bool
+	// forceCap: read from this kind of capable source (see capSource)
+	forceCap string
 }
 
 func (m *mutant) length() int {
@@ -471,6 +474,7 @@ type outcome struct {
 // operations can be run while it is half consumed.
 type session struct {
 	hdrReader *partsReader // set when the "header as its own chunk" source style is in use
+	srcClose  func()       // releases an os.Pipe source
 	o         outcome
 	dr        io.Reader
 	done      bool
@@ -555,13 +559,14 @@ func start(m *mutant, rng *mon.RNG) *session {
 				o.decErr = fmt.Errorf("PANIC in Decrypt: %v", p)
 			}
 		}()
-		s.dr, o.decErr = enc.Decrypt(r, enc.DecryptOptions{UnwrapKeyFn: uw})
+		s.dr, o.decErr = enc.Decrypt(s.capSource(m, r, rng, o), enc.DecryptOptions{UnwrapKeyFn: uw})
 	}()
 	if len(keyCache) > 0 {
 		verifyKeyCache("Decrypt of " + m.class + "@" + m.pos)
 	}
 	if o.decErr != nil {
 		s.done = true
+		s.closeSrc()
 		return s
 	}
 	// From here on kit works on its own goroutine, where a panic cannot be
@@ -608,12 +613,102 @@ func (s *session) abandon() {
 		c.Close()
 	}
 	s.done = true
+	s.closeSrc()
+}
+
+func (s *session) closeSrc() {
+	if s.srcClose != nil {
+		s.srcClose()
+		s.srcClose = nil
+	}
+}
+
+// ---- sources that are more than an io.Reader (the kinds of C01's source-capabilities family)
+
+type errSeeker struct{ r io.Reader }
+
+func (e errSeeker) Read(p []byte) (int, error) { return e.r.Read(p) }
+func (e errSeeker) Seek(int64, int) (int64, error) {
+	rec.Count("srccap.seek_calls_observed", 1)
+	return 0, errors.New("harness: this source cannot seek")
+}
+
+type fwdSeeker struct{ r *bytes.Reader }
+
+func (f fwdSeeker) Read(p []byte) (int, error) { return f.r.Read(p) }
+func (f fwdSeeker) Seek(o int64, w int) (int64, error) {
+	rec.Count("srccap.seek_calls_observed", 1)
+	return f.r.Seek(o, w)
+}
+
+// bufSeeker: Read is served by a bufio layer, Seek moves the reader underneath it.
+type bufSeeker struct {
+	*bufio.Reader
+	under io.Seeker
+}
+
+func (b bufSeeker) Seek(o int64, w int) (int64, error) {
+	rec.Count("srccap.seek_calls_observed", 1)
+	return b.under.Seek(o, w)
+}
+
+var capCounter int
+
+// capSource decides whether this Decrypt reads from a source with extra capabilities: a wrapper whose Seek
+// always fails (any mutant, any chunking: it wraps the scripted reader), or - for documents without an injected
+// source error - a Seek-forwarding wrapper over a bytes.Reader, a bufio layer with a Seek that moves the reader
+// underneath, or the read end of an os.Pipe (an *os.File whose Seek fails with ESPIPE) fed by a goroutine.
+func (s *session) capSource(m *mutant, r *partsReader, rng *mon.RNG, o *outcome) io.Reader {
+	kind := m.forceCap
+	if kind == "" {
+		if rng == nil {
+			return r
+		}
+		capCounter++
+		switch {
+		case capCounter%8 == 1:
+			kind = "erroring-Seek"
+		case capCounter%16 == 6 && !m.srcErr && m.length() <= 70000:
+			kind = "Seek-forwarding"
+		case capCounter%16 == 14 && !m.srcErr && m.length() <= 70000:
+			kind = "bufio+inconsistent-Seek"
+		case capCounter%64 == 35 && !m.srcErr && m.length() <= 8192:
+			kind = "os.Pipe"
+		default:
+			return r
+		}
+	}
+	o.style += "+source=" + kind
+	rec.Count("srccap."+kind, 1)
+	switch kind {
+	case "erroring-Seek":
+		return errSeeker{r}
+	case "Seek-forwarding":
+		return fwdSeeker{bytes.NewReader(m.flatten())}
+	case "bufio+inconsistent-Seek":
+		br := bytes.NewReader(m.flatten())
+		return bufSeeker{bufio.NewReaderSize(br, 4096), br}
+	default: // os.Pipe
+		pr, pw, err := os.Pipe()
+		if err != nil {
+			rec.Count("srccap.os.Pipe_unavailable", 1)
+			return r
+		}
+		data := m.flatten()
+		go func() {
+			pw.Write(data)
+			pw.Close()
+		}()
+		s.srcClose = func() { pr.Close() }
+		return pr
+	}
 }
 
 // run gives the mutant to the real kit.Decrypt and reads the stream to its end.
 func run(m *mutant, rng *mon.RNG) outcome {
 	s := start(m, rng)
 	s.read(-1)
+	s.closeSrc()
 	if s.hdrReader != nil {
 		rec.Count("srcstyle.zero_length_reads", s.hdrReader.zeroReads)
 	}
@@ -1559,7 +1654,7 @@ func TestCheck(t *testing.T) {
 		"segment delete/duplicate/append/swap/drop-tail/drop-head for every segment; splices with a same-length document under the same and under another key-encryption key (payload, header, MAC line, manifest, single segment, tag, body); "+
 		"nine misbehaving unwrap callbacks; one-byte insertions (7 values) and deletions at every header offset and at segment landmarks; ~110 semantic header edits (JSON re-encodings that parse to the same values: white space, member order, member-name case, \\u escapes, duplicate and unknown members, unused base64 bits of np/wfk; changes of every field; MAC-line spellings; scheme line; line structure); "+
 		"for non-empty plaintexts every one of these header edits, every single-bit flip and every one-byte insertion/deletion of the header COMBINED with dropping all segments or keeping only the first k payload bytes; "+
-		"sticky source-reader errors at every header offset, around every boundary, mid-segment, in place of the final EOF, each alone (0, err) and together with the last data (n>0, err), and each with every member of an error family (private sentinel, io.ErrUnexpectedEOF plain and wrapped, io.ErrNoProgress, io.ErrClosedPipe, context.Canceled, wrapped os.ErrDeadlineExceeded, a net.Error-like timeout), plus seeded offsets with a seeded member; seeded compound mutations; SOURCE STYLE header-as-its-own-chunk: in a quarter of the Decrypts of every family (and for one unmodified control document per case) the source delivers exactly the header of the document as it is (up to its third line feed) in 1-3 chunks of its own, then 1, 2 or 5 legal no-progress reads (0, nil) before any body byte, further (0, nil) reads between body chunks and one before the final EOF or injected error; the oracle is unchanged (never a clean EOF short of the authentic plaintext; the known finding still only matches a document reduced to its authentic header). BUSY UNWRAP CALLBACK: in every fourth Decrypt of every family (tampered, truncated, forged, overlapped ... documents, honest and hostile callbacks alike) and for one unmodified control document per (base document, family) case, the unwrap callback first runs a complete inner enc/v1 Encrypt->Decrypt round trip of a ~2 KiB record through the same package (which must itself be exact) and only then answers - the package-level pools are used between kit's header read and its first segment; the oracle of the outer document is unchanged (a control document must decrypt exactly). FORGED documents (after the huge cases): built by refenc under a file key an attacker can guess (all zero, all 0xFF, 32 x 0x01, the wfk bytes, SHA-256 of the manifest or of the wfk, the padded key name) x both ciphers x plaintext lengths {0,1,1000,65536,65537} x wfk field {garbage, short garbage, another valid document's wfk} x 12 unwrap behaviours (honest, error, nil, empty, 3/31/33/64 bytes, that key WITH an error, other keys with and without error): every one must be refused without releasing a byte (an accepted EMPTY forged document is observed, not judged); OVERLAP mode: for the unmodified document and a sample of mutants of every class, the Decrypt stream is read to k bytes (k in {1,10,65535,65546}), then complete other operations run (decrypt of an unrelated valid document, of a tampered one, of attacker-supplied garbage, an Encrypt), then the rest is read - or the stream is given up and closed after three such operations; the outer stream and every inner operation are judged by the same rule (an unmodified document must give exactly its plaintext). "+
+		"sticky source-reader errors at every header offset, around every boundary, mid-segment, in place of the final EOF, each alone (0, err) and together with the last data (n>0, err), and each with every member of an error family (private sentinel, io.ErrUnexpectedEOF plain and wrapped, io.ErrNoProgress, io.ErrClosedPipe, context.Canceled, wrapped os.ErrDeadlineExceeded, a net.Error-like timeout), plus seeded offsets with a seeded member; seeded compound mutations; SOURCE CAPABILITIES: in a fraction of the Decrypts of every family and for unmodified control documents in every case the source is more than an io.Reader - a wrapper whose Seek always fails (1/8 of all Decrypts, around the scripted reader with all its chunking and error injection), a Seek-forwarding wrapper over a bytes.Reader and a bufio layer with a Seek that moves the reader underneath (1/16 each, documents up to 70000 bytes), the read end of an os.Pipe fed by a goroutine (1/64, documents up to 8 KiB; an *os.File whose Seek fails at run time); oracle unchanged. SOURCE STYLE header-as-its-own-chunk: in a quarter of the Decrypts of every family (and for one unmodified control document per case) the source delivers exactly the header of the document as it is (up to its third line feed) in 1-3 chunks of its own, then 1, 2 or 5 legal no-progress reads (0, nil) before any body byte, further (0, nil) reads between body chunks and one before the final EOF or injected error; the oracle is unchanged (never a clean EOF short of the authentic plaintext; the known finding still only matches a document reduced to its authentic header). BUSY UNWRAP CALLBACK: in every fourth Decrypt of every family (tampered, truncated, forged, overlapped ... documents, honest and hostile callbacks alike) and for one unmodified control document per (base document, family) case, the unwrap callback first runs a complete inner enc/v1 Encrypt->Decrypt round trip of a ~2 KiB record through the same package (which must itself be exact) and only then answers - the package-level pools are used between kit's header read and its first segment; the oracle of the outer document is unchanged (a control document must decrypt exactly). FORGED documents (after the huge cases): built by refenc under a file key an attacker can guess (all zero, all 0xFF, 32 x 0x01, the wfk bytes, SHA-256 of the manifest or of the wfk, the padded key name) x both ciphers x plaintext lengths {0,1,1000,65536,65537} x wfk field {garbage, short garbage, another valid document's wfk} x 12 unwrap behaviours (honest, error, nil, empty, 3/31/33/64 bytes, that key WITH an error, other keys with and without error): every one must be refused without releasing a byte (an accepted EMPTY forged document is observed, not judged); OVERLAP mode: for the unmodified document and a sample of mutants of every class, the Decrypt stream is read to k bytes (k in {1,10,65535,65546}), then complete other operations run (decrypt of an unrelated valid document, of a tampered one, of attacker-supplied garbage, an Encrypt), then the rest is read - or the stream is given up and closed after three such operations; the outer stream and every inner operation are judged by the same rule (an unmodified document must give exactly its plaintext). "+
 		"Huge tamper cases (after the ordinary ones, each run by one child; quick: AES-GCM, thorough: both ciphers): kit.Encrypt of a generated 4 GiB + 128 KiB + 100 byte plaintext (65539 segments, every one different) is streamed to a scratch file, then (a) segment 65536 is replaced by a copy of segment 0 and (b) segments 1 and 65537 are swapped, the tampered document is streamed through kit.Decrypt and the released bytes are compared position by position with the generator - the only mutants in which segment numbers differ in the upper half of the nonce's 32-bit counter. "+
 		"Every mutant is decrypted by the real kit.Decrypt through an all-at-once or seeded-chunk reader and read to the end. Rule: Decrypt error OR non-EOF stream error OR (bytes == plaintext AND EOF), and the released bytes are a prefix of the plaintext; "+
 		"for a source error an error is mandatory. A payload-less mutant that kit turns into \"\" + clean EOF is classified by the independent implementation (refenc.CheckHeader: does the MAC over the raw first two lines verify?): authentic header = the known format-level finding truncate@header-end/nonempty; header rejected by the reference = a violation with the mutation's own signature; only the MAC-line spelling differs (kit lenient, reference strict) = observed, not judged. Accepted mutants with identical plaintext whose header the reference rejects are counted (accepted_identical_but_header_fails_reference_mac), not judged. Mutants equal to the original are skipped. Evaluations = mutants judged; enumerated families are distinct by construction, seeded compound mutants are keyed by their description; non-trivial = every mutant (it differs from the original or carries a fault).")
@@ -1567,7 +1662,7 @@ func TestCheck(t *testing.T) {
 		"srcerr.surfaced", "truncate.at.segment-boundary", "truncate.at.header-end", "truncate.at.segment-tag", "truncate.at.segment-body", "srcerr.at.final-eof", "srcerr.at.final-eof+data",
 		"rejected_or_identical.seg-swap", "rejected_or_identical.splice-samekek", "rejected_or_identical.splice-otherkek", "rejected_or_identical.unwrap", "rejected_or_identical.extend",
 		"huge.tamper_rejected.seg-replace", "huge.tamper_rejected.seg-swap", "huge.rejected_exactly_at_segment_65536",
-		"srcstyle.header_as_own_chunk", "srcstyle.zero_length_reads", "srcstyle.control_documents_exact", "busy_unwrap.decrypts", "busy_unwrap.inner_round_trips_exact", "busy_unwrap.control_documents_exact", "callback.key_cache_verified", "forged.documents_judged", "forged.refused_by_decrypt", "forged.unwrap.honest", "forged.unwrap.error", "forged.unwrap.that-key-with-error", "forged.unwrap.64-bytes",
+		"srccap.erroring-Seek", "srccap.Seek-forwarding", "srccap.bufio+inconsistent-Seek", "srccap.os.Pipe", "srccap.control_documents_exact", "srcstyle.header_as_own_chunk", "srcstyle.zero_length_reads", "srcstyle.control_documents_exact", "busy_unwrap.decrypts", "busy_unwrap.inner_round_trips_exact", "busy_unwrap.control_documents_exact", "callback.key_cache_verified", "forged.documents_judged", "forged.refused_by_decrypt", "forged.unwrap.honest", "forged.unwrap.error", "forged.unwrap.that-key-with-error", "forged.unwrap.64-bytes",
 		"overlap.cases", "overlap.outer_stream_was_half_read", "overlap.intact_stream_exact", "overlap.abandoned_cases", "overlap.abandoned_stream_prefix_ok", "overlap.abandoned_stream_closed",
 		"overlap.inner.decrypt-valid", "overlap.inner.decrypt-tampered", "overlap.inner.decrypt-garbage", "overlap.inner.encrypt_ok",
 		"rejected_or_identical.srcerr", "rejected_or_identical.srcerr(unexpected-eof)", "rejected_or_identical.srcerr(wrapped-unexpected-eof)", "rejected_or_identical.srcerr(context-canceled)", "srcerr.surfaced_as_the_injected_error",
@@ -1637,6 +1732,19 @@ func TestCheck(t *testing.T) {
 		j.evaluate(ctl2, run(ctl2, nil))
 		if rec.Violations() == before {
 			rec.Count("srcstyle.control_documents_exact", 1)
+		}
+		// controls: the unmodified document from sources that have a Seek method (failing, forwarding, inconsistent)
+		// and from the read end of an os.Pipe
+		for _, kind := range []string{"erroring-Seek", "Seek-forwarding", "bufio+inconsistent-Seek", "os.Pipe"} {
+			if kind == "os.Pipe" && (len(b.doc) > 8192 || c.family%4 != 0) {
+				continue
+			}
+			ctl3 := &mutant{class: "control", pos: "source=" + kind, desc: "unmodified document read from a " + kind + " source", parts: [][]byte{b.doc}, intact: true, forceCap: kind}
+			before = rec.Violations()
+			j.evaluate(ctl3, run(ctl3, nil))
+			if rec.Violations() == before {
+				rec.Count("srccap.control_documents_exact", 1)
+			}
 		}
 		families[c.family].run(j)
 		rec.Count("family."+families[c.family].name, int(j.n))
